@@ -379,7 +379,7 @@ func TestVerif_C20(t *testing.T) {
 		panic(err)
 	}
 	defer os.RemoveAll(dir)
-	n := r.Pick(3072, 40000)
+	n := r.Pick(3072, 200000)
 	const blk = 256
 	for b := 0; b*blk < n; b++ {
 		id := fmt.Sprintf("configs-%d", b)
